@@ -17,7 +17,8 @@ RULE = ("correspondence: the real _power_from_stats on Fractions (affine stand-i
         "absolute/relative effects and sequences")
 TRUSTED = ["translator tools/py2coq.py (Mean spec)", "laws L1-L9 of lib/Distr.v (satisfiable: logistic witness)",
            "scipy.stats.norm / nct reference in the oracle", "stand-in shims tools/meanx.py"]
-ASSUMES = ["C08_power_mono_n_t_partial and two-sided monotonicity in |effect|: validated by sweeps, not proved (laws L10/L11 not assumed)"]
+ASSUMES = ["C08_power_mono_n_t_partial (monotonicity in n for the t test) and two-sided monotonicity in |effect| / n: validated by sweeps, "
+           "not proved (they need laws about the distribution families that are not assumed); the Z one-sided cases are proved"]
 
 
 def correspondence(ctx):
